@@ -628,76 +628,3 @@ Proof.
   split; [vm_compute; reflexivity|]. split; [vm_compute; reflexivity|].
   eexists. split; [vm_compute; reflexivity|]. repeat split; vm_compute; reflexivity.
 Qed.
-
-(* ================= Object.source: dedent removes blanks only ================= *)
-Lemma indent_spaces_drop : forall n l, n <= indent_of l -> l = String.append (spaces n) (drop n l).
-Proof.
-  induction n as [|n IH]; intros l H; [reflexivity|].
-  destruct l as [|c r]; simpl in H; [lia|].
-  destruct (Ascii.eqb c " "%char) eqn:E; [|lia]. apply Ascii.eqb_eq in E. subst c.
-  simpl. f_equal. apply IH. lia.
-Qed.
-
-Lemma margin_opt_le : forall ls m l, margin_opt ls = Some m -> In l ls -> is_blank l = false -> m <= indent_of l.
-Proof.
-  induction ls as [|x r IH]; intros m l H I B; [destruct I|].
-  simpl in H. destruct I as [E|I].
-  - subst x. rewrite B in H. destruct (margin_opt r); injection H as H; subst m; lia.
-  - destruct (is_blank x).
-    + eapply IH; eauto.
-    + destruct (margin_opt r) as [m'|] eqn:M.
-      * injection H as H. subst m. pose proof (IH m' l eq_refl I B). lia.
-      * exfalso. clear - M I B. induction r as [|y r IHr]; [destruct I|]. simpl in M. destruct I as [E|I].
-        -- subst y. rewrite B in M. destruct (margin_opt r); discriminate.
-        -- destruct (is_blank y); [auto|]. destruct (margin_opt r); discriminate.
-Qed.
-
-Lemma margin_opt_attained : forall ls m, margin_opt ls = Some m -> exists l, In l ls /\ is_blank l = false /\ indent_of l = m.
-Proof.
-  induction ls as [|x r IH]; intros m H; [discriminate|]. simpl in H.
-  destruct (is_blank x) eqn:B.
-  - destruct (IH m H) as [l [I R]]. exists l. split; [right; exact I|exact R].
-  - destruct (margin_opt r) as [m'|] eqn:M.
-    + injection H as H. destruct (Nat.min_dec (indent_of x) m') as [E|E].
-      * exists x. split; [left; reflexivity|]. split; [exact B|]. congruence.
-      * destruct (IH m' eq_refl) as [l [I [Bl El]]]. exists l. split; [right; exact I|]. split; [exact Bl|]. congruence.
-    + injection H as H. exists x. split; [left; reflexivity|]. auto.
-Qed.
-
-(* Object.source = dedent of the sliced lines: as many lines; a blank line becomes empty; every other line loses exactly
-   [margin] characters, all of them blanks (no other character is ever cut off, whatever less-indented lines -- flush-left
-   string content, left-aligned comments, low-column continuation lines -- the span contains); and unless all lines are
-   blank some line of the result starts at column 0 *)
-Theorem dedent_only_blanks : forall ls,
-  List.length (dedent ls) = List.length ls /\
-  (forall i l, nth_error ls i = Some l ->
-     nth_error (dedent ls) i = Some (if is_blank l then EmptyString else drop (margin ls) l) /\
-     (is_blank l = false -> l = String.append (spaces (margin ls)) (drop (margin ls) l))) /\
-  ((exists l, In l ls /\ is_blank l = false) -> exists l, In l ls /\ is_blank l = false /\ indent_of l = margin ls).
-Proof.
-  intros ls. split; [unfold dedent; apply map_length|]. split.
-  - intros i l H. split.
-    + unfold dedent. rewrite nth_error_map, H. reflexivity.
-    + intros B. apply indent_spaces_drop. unfold margin. destruct (margin_opt ls) as [m|] eqn:M; [|lia].
-      eapply margin_opt_le; eauto. eapply nth_error_In; eauto.
-  - intros [l [I B]]. unfold margin. destruct (margin_opt ls) as [m|] eqn:M.
-    + apply margin_opt_attained. exact M.
-    + exfalso. clear - M I B. induction ls as [|y r IHr]; [destruct I|]. simpl in M. destruct I as [E|I].
-      * subst y. rewrite B in M. destruct (margin_opt r); discriminate.
-      * destruct (is_blank y); [auto|]. destruct (margin_opt r); discriminate.
-Qed.
-
-(* lines and source of a reported object, in terms of the item's text *)
-Theorem object_lines_source : forall items pre post o,
-  In o (occ_list (List.length pre + 1) items) ->
-  object_lines (pre ++ render_list items ++ post) (o_first o) (o_last o) = o_text o /\
-  object_source (pre ++ render_list items ++ post) (o_first o) (o_last o) = dedent (o_text o).
-Proof.
-  intros. unfold object_lines, object_source. rewrite (slice_reported_span items pre post o H). auto.
-Qed.
-
-Example dedent_sample :
-  dedent ["    def f(self):"; "        x = '''"; "flush left"; "  '''"; "     "; "# comment"; "        return ("; "1)"] =
-         ["    def f(self):"; "        x = '''"; "flush left"; "  '''"; ""; "# comment"; "        return ("; "1)"] /\
-  dedent ["    def g(self):"; "        pass"; ""; "      # c"] = ["def g(self):"; "    pass"; ""; "  # c"].
-Proof. split; vm_compute; reflexivity. Qed.
